@@ -218,6 +218,18 @@ def corpus():
                 out.append(gram.Spec([C("A0", True, None), C("Leaf", False, 0, []), C("Point", False, None, [("x", ("ann", "int", ("intRange", 0, 3)))]),
                                       C("Cloud", False, 0, [("samples", ("ann", ("list", ("cls", 2)), (mh, lo, hi)))]),
                                       C("Tree", False, 0, [("kids", ("ann", ("list", ("cls", 0)), (mh, lo, hi))), ("p", ("cls", 2))])], 0, [1, 3, 4, 2], expansion))
+    # a production that can fail (SynthesisException) declared AFTER a deeper one and BEFORE the leaf: whatever creation falls back
+    # on when it fails at the last level must fit the limit too
+    failing = [("vars", ("ann", ("list", ("ann", "str", ("varRange", ["x", "y"]))), ("listSize", 0, 1))), ("x", ("ann", "str", ("depVarFrom", "vars")))]
+    for expansion in (False, True):
+        out.append(gram.Spec([C("A0", True, None), C("Big", False, 0, [("l", ("cls", 0)), ("r", ("cls", 0))]), C("Quote", False, 0, [("q", ("cls", 0))]),
+                              C("V", False, 0, failing), C("Leaf", False, 0, [])], 0, [1, 2, 3, 4], expansion))
+    # plain lists nested in plain lists through a concrete class (Table(rows: list[Row]), Row(cells: list[A0])): more list layers than
+    # abstract layers on the shallowest path
+    for expansion in (True, False):
+        out.append(gram.Spec([C("A0", True, None), C("Lit", False, 0, []), C("Row", False, None, [("cells", ("list", ("cls", 0)))]),
+                              C("Table", False, 0, [("rows", ("list", ("cls", 2)))]),
+                              C("Grid", False, 0, [("g", ("list", ("list", ("cls", 0))))])], 0, [1, 3, 4, 2], expansion))
     return out
 
 
